@@ -9,15 +9,15 @@ VERIF = os.path.dirname(os.path.dirname(os.path.abspath(__file__)))
 
 CLAIMS = {
     'C01': dict(
-        text='Deductive proof (Verus) of the cursor discipline of the sequential message parser, of the completeness / repetition-cap obligations and of the field-count linearity obligation (every field occurrence handed out by the parser is stored in the returned value) at every Ok exit of the 30 extracted parse_from_block4 bodies.',
+        text='Deductive proof (Verus) of the cursor discipline of the sequential message parser, of field extraction (which text is the content of the field at the cursor and how far the cursor moves), of the completeness / repetition-cap obligations and of the field-count linearity obligation (every field occurrence handed out by the parser is stored in the returned value) at every Ok exit of the 30 extracted parse_from_block4 bodies.',
         note='Trusted: std string search/trim contracts in verus/prelude.rs, field parsers abstracted by the SwiftField trait contract, Verus/Z3.',
         design='DESIGN.md §5 C01', technique='contract-based deductive verification (Verus) of extracted real functions'),
     'C02': dict(
-        text='Deductive proof (Verus) of a serialiser contract for every field struct (text == tag + components in the order and with the separators the parser reads) next to the exact-value clause of its parser, of the round-trip lemmas for dates / amounts / codes / numbering, and that the message-level serialisers emit the fields in the order the parser consumes them; number/date formatting and str::lines / str::split are assumed external contracts.',
+        text='Deductive proof (Verus) of a serialiser contract for every field struct (text == tag + components in the order and with the separators the parser reads) next to the exact-value clause of its parser, of the round-trip lemmas for dates / amounts-as-text / codes / numbering and -- with str::lines / str::split(char) modelled concretely -- for the multi-line fields and the block 1/2 headers (the text written for a parsed value is accepted again and gives the same value), and that the message-level serialisers emit the fields in the order the parser consumes them; number/date formatting through f64/chrono is an assumed external contract.',
         note='Trusted: prelude contracts, float/chrono formatting assumed, Verus/Z3.',
         design='DESIGN.md §5 C02', technique='contract-based deductive verification (Verus): encode/decode inverse lemmas over function contracts'),
     'C04': dict(
-        text='Deductive proof (Verus) that each extracted network-rule function returns its documented error codes iff an independently written rule specification (from the SR2025 rule text) is violated, for all messages, including the 23E code / additional-information / duplicate / order / forbidden-pair rules; code tables pinned. Rules left as declared assumptions (floating-point sums, iterator-adapter collections) are listed in the evidence.',
+        text='Deductive proof (Verus) that each extracted network-rule function returns its documented error codes iff an independently written rule specification (from the SR2025 rule text) is violated, for all messages, including the 23E code / additional-information / duplicate / order / forbidden-pair rules; code tables pinned. Rules that add or compare amounts are proved with float arithmetic left abstract (which amounts, which tolerance, which comparison); the rules left as declared assumptions (MT204 C1/C2, MT200 T80) are listed in the evidence.',
         note='Trusted: prelude contracts (Vec iteration idioms, String equality), f64 comparison uninterpreted, Verus/Z3.',
         design='DESIGN.md §5 C04', technique='contract-based deductive verification (Verus): rule function == rule spec function'),
     'C05': dict(
@@ -29,15 +29,15 @@ CLAIMS = {
         note='Trusted: f64 parse grammar/value uninterpreted, float formatting assumed, prelude contracts, Verus/Z3.',
         design='DESIGN.md §5 C06', technique='contract-based deductive verification (Verus)'),
     'C07': dict(
-        text='Deductive proof (Verus) of absence of panics (slice bounds and char boundaries, unwrap, overflow, index) and termination for every function under contract, with no ASCII assumption on inputs.',
+        text='Deductive proof (Verus) of absence of panics (slice bounds and char boundaries, unwrap, overflow, index) and termination for every function under contract (field and message parsers and serialisers, headers, block extraction, field extraction, tokeniser, rule functions, error rendering with context, the address normalisation of the header JSON codecs), with no ASCII assumption on inputs.',
         note='Covers the functions listed in the evidence only; complexity bound not expressible. Trusted: prelude contracts state std panic conditions, Verus/Z3.',
         design='DESIGN.md §5 C07', technique='contract-based deductive verification (Verus): automatically generated safety obligations of extracted functions'),
     'C09': dict(
-        text='Deductive proof (Verus) of the error variant and payload (tag, message type, content) produced by every fetch method of the sequential parser, and that mandatory tags are fetched as required in the extracted message parsers.',
+        text='Deductive proof (Verus) of the error variant and payload (tag, message type, content) produced by every fetch method of the sequential parser, that mandatory tags are fetched as required and no fetch error is swallowed in the extracted message parsers, and that a message without its mandatory repetitive sequence is rejected.',
         note='Trusted: prelude contracts, SwiftField trait contract, Verus/Z3.',
         design='DESIGN.md §5 C09', technique='contract-based deductive verification (Verus)'),
     'C10': dict(
-        text='Deductive proof (Verus) of fixed-offset header parsing (every component equals its documented byte range, lengths/directions rejected as documented), block extraction and tag re-emission.',
+        text='Deductive proof (Verus) of fixed-offset header parsing (every component equals its documented byte range, lengths/directions/shapes rejected as documented), of header round-trip lemmas (an accepted block 1/2 is written back as read), of block extraction against a top-level scan of the block structure (a marker inside a field or tag value is not a block) and of tag re-emission.',
         note='Trusted: prelude contracts (find/starts_with), pad/truncate format specs assumed, Verus/Z3.',
         design='DESIGN.md §5 C10', technique='contract-based deductive verification (Verus)'),
     'C11': dict(
@@ -49,7 +49,7 @@ CLAIMS = {
         note='Trusted: prelude contracts, plugin glue around the extracted matches unverified, Verus/Z3.',
         design='DESIGN.md §5 C12', technique='contract-based deductive verification (Verus) of extracted dispatch functions'),
     'C13': dict(
-        text='Deductive proof (Verus) that stop-on-first validation returns a prefix of the full list with equal emptiness (per extracted validate_network_rules), the result is a function of the message, adapters agree with the list.',
+        text='Deductive proof (Verus) that stop-on-first validation returns a prefix of the full list with equal emptiness (per extracted validate_network_rules), the result is a function of the message, the trait method of every type forwards to it (or is the extracted default body), SwiftMessage::validate reports one entry per error in order with is_valid iff none, and the wrapper / plugin statements take the full list of the announced type.',
         note='Trusted: prelude contracts, Verus/Z3; plugin JSON glue unverified.',
         design='DESIGN.md §5 C13', technique='contract-based deductive verification (Verus): prefix lemma over aggregator contracts'),
     'C14': dict(
